@@ -2,7 +2,7 @@
 # Runs ALL claimed quick checks against each behaviour-preserving refactoring under /tmp/wt/H*/_out/patch*.diff in a
 # scratch copy (worktree of /repo + copy of /verif).  A VIOLATION here is a false alarm.  Results: /tmp/seedeval/harmless.tsv
 set -u
-S=/tmp/seedeval
+S=${S:-/tmp/seedeval}   # scratch directory; several evaluations can run side by side with different S
 rm -rf $S/verif; mkdir -p $S
 [ -d $S/repo ] || git -C /repo worktree add -q --detach $S/repo HEAD
 git -C $S/repo checkout -q --detach $(git -C /repo rev-parse HEAD) && git -C $S/repo checkout -q -- . && git -C $S/repo clean -fdq
